@@ -55,9 +55,9 @@ LEVEL_NOTE = "Crash = process death (os._exit), not power loss: no fsync semanti
 DESIGN_REF = "DESIGN.md §3 C15"
 EXHAUSTIVE = {"quick": "all behaviour sequences of length <=3 (x3 client modes); all LINE-event crash points of request_profile + 6 file-op points; all 70 two-writer schedules",
               "thorough": "all behaviour sequences of length <=4 (x3 client modes); crash points x2 body sizes; all 70 schedules x 3 body-size pairs"}
-MIN_COUNTERS = {"quick": {"seq_histories": 1500, "seq_steps": 5000, "crash_points": 20, "crash_followups": 20, "schedules": 70, "schedule_steps_observed": 250,
+MIN_COUNTERS = {"quick": {"seq_histories": 1200, "seq_steps": 4000, "crash_points": 20, "crash_followups": 20, "schedules": 70, "schedule_steps_observed": 250,
                           "scan_runs": 3, "scan_requests": 90, "wrongserver_pairs": 60, "wrongserver_url_override_pairs": 20, "override_thread_runs": 8},
-                "thorough": {"seq_histories": 12000, "seq_steps": 45000, "crash_points": 40, "crash_followups": 40, "schedules": 210, "schedule_steps_observed": 750,
+                "thorough": {"seq_histories": 9000, "seq_steps": 36000, "crash_points": 40, "crash_followups": 40, "schedules": 210, "schedule_steps_observed": 750,
                              "scan_runs": 30, "scan_requests": 900, "wrongserver_pairs": 400, "wrongserver_url_override_pairs": 40, "override_thread_runs": 100}}
 
 # FI identities, incl. free-text ORG/FID as found in the bundled FI database ("Cavion/Phoenix") and worse
@@ -710,8 +710,14 @@ def wrongserver_monitor(ctx, net):
     rng.shuffle(combos)
     forced = [(ua, ia, ub, ia) for ua in urls[:3] for ub in urls if ub != ua for ia in idents[:5]]  # one FI at two URLs
     rng.shuffle(forced)
-    combos = forced[:48 if ctx.tier == "quick" else 75] + combos
-    n = 208 if ctx.tier == "quick" else 1275
+    # identities that differ only where a careless file name would not: text that reads like a missing value, and long
+    # non-ASCII names (legal: 32 characters) that agree in their first dozen characters
+    la, lb = "\u4e2d\u56fd\u5de5\u5546\u94f6\u884c\u80a1\u4efd\u6709\u9650\u516c\u53f8\u5317\u4eac\u5206\u884c", "\u4e2d\u56fd\u5de5\u5546\u94f6\u884c\u80a1\u4efd\u6709\u9650\u516c\u53f8\u4e0a\u6d77\u5206\u884c"
+    near = [((None, None), ("None", "None")), ((la, "1"), (lb, "1")), (("ORG1", la), ("ORG1", lb)), (("ORG1", None), ("ORG1", "None")),
+            (("%41", "1"), ("A", "1")), (("a b", "1"), ("a+b", "1")), (("ORG1", "F1"), ("org1", "f1"))]
+    near = [(u, x, u, y) for u in urls[:2] for a, b in near for x, y in ((a, b), (b, a))]
+    combos = near + forced[:48 if ctx.tier == "quick" else 75] + combos
+    n = 240 if ctx.tier == "quick" else 1307
     for i, (ua, ia, ub, ib) in enumerate(combos[:n]):
         if i % ctx.nshards != ctx.shard:
             continue
@@ -727,7 +733,7 @@ def wrongserver_monitor(ctx, net):
             asked.setdefault(rec["client"], []).append(a)
             if a and R.parse_datetime(a) >= R.parse_datetime(server_dt[u]):
                 return Reply(ofxserver.profile_uptodate())
-            return Reply(ofxserver.profile_ok(server_dt[u], u, u, finame="SRV-" + str(urls.index(u)) + "-" + rec["client"][1:]))
+            return Reply(ofxserver.profile_ok(server_dt[u], u, u, finame=("SRV-" + str(urls.index(u)) + "-" + rec["client"][1:])[:32]))
 
         net.handler = handler
         ctx.ev()
